@@ -100,9 +100,48 @@ def find_poly(v):
     return None, chain
 
 
+def compare_form(v):
+    """Value is a decision tree whose conditions compare one polynomial with zero -> (poly, {-1: val, 0: val, +1: val}) else None."""
+    rv = as_rf(v) if not isinstance(v, (I.Ite,)) else v
+    leaves = dtab.b_leaves(rv)
+    if not leaves:
+        return None
+    poly = None
+    for l in leaves.values():
+        if l.op != 'cmp' or not isinstance(l.args[1], RF) or not isinstance(l.args[2], RF):
+            return None
+        d = l.args[1] - l.args[2]
+        if I.single_atom(d) is not None or d.is_const():
+            return None
+        if poly is None:
+            poly = d if True else None
+        q = d / poly
+        if not q.is_const() or q.const_value() == 0:
+            return None
+    table = {}
+    for s in (-1, 0, 1):
+        def val(leaf, s=s):
+            d = leaf.args[1] - leaf.args[2]
+            k = (d / poly).const_value()
+            sd = s * (1 if k > 0 else -1)         # sign of (lhs - rhs)
+            return {'<': sd < 0, '<=': sd <= 0, '==': sd == 0, '!=': sd != 0}[leaf.args[0]]
+        r = dtab.evaluate(rv, val)
+        table[s] = r.const_value() if isinstance(r, RF) and r.is_const() else repr(r)
+    return poly, table
+
+
 def r1(ctx, F, rule, sfx):
     b, ip, v = exact_form(ctx, F)
     w = where(b)
+    cf = compare_form(v)
+    if cf is not None:
+        poly, table = cf
+        spec = spec_poly()
+        flip = 1 if poly == spec else -1 if poly == -spec else 0
+        got = {s: table[s * flip] for s in (-1, 0, 1)} if flip else table
+        ctx.check(rule, 'determinant-identity' + sfx, flip != 0, 'comparison of a polynomial with %d terms against zero' % len(poly.num), 'the lifted 4x4 determinant', w, key_extra='det')
+        ctx.check(rule, 'sign-map' + sfx, flip != 0 and got == {-1: -1, 0: 0, 1: 1}, 'determinant negative/zero/positive -> %s' % [got[-1], got[0], got[1]], '-1.0 / 0.0 / +1.0', w, key_extra='signmap:%s' % [got[-1], got[0], got[1]])
+        return
     poly, chain = find_poly(v)
     if poly is None or I.single_atom(poly) is not None:
         ctx.incomplete(rule, 'determinant' + sfx, 'returned value %s is not sign-extraction(polynomial)' % repr(v)[:160], w)
@@ -183,7 +222,11 @@ def r5(ctx, F, rule, sfx):
 def r6(ctx, F, rule, sfx):
     # the polynomial and the argument order used by the clip routine
     b, ip, v = exact_form(ctx, F)
-    poly, chain = find_poly(v)
+    cf = compare_form(v)
+    if cf is not None:
+        poly = cf[0] if cf[0] == spec_poly() else -cf[0]
+    else:
+        poly, chain = find_poly(v)
     if poly is None:
         raise AnalysisIncomplete('predicate polynomial not determined')
     sc = scen.build_scenario(F)
